@@ -24,6 +24,7 @@ type Frame struct {
 	bind   []Val
 	defers []deferred
 	info   *FuncInfo
+	cur    ssa.Instruction // instruction being executed (for attribution of init-time allocations)
 }
 
 type deferred struct {
@@ -197,6 +198,7 @@ func (w *Worker) run(fr *Frame) Val {
 		var next *ssa.BasicBlock
 		for _, ins := range block.Instrs[nphi:] {
 			w.instrs++
+			fr.cur = ins
 			if w.instrs > w.instrLimit {
 				w.unwindFail("instruction budget exceeded")
 			}
